@@ -144,6 +144,7 @@ func concurrent(c *run.Ctx, forKeys bool, N int) {
 		r := c.Rand("conc", i)
 		g := newGen(r)
 		g.forKeys = forKeys
+		g.noLong = true // tens of thousands of evaluations per case: a 30 KiB result each makes the case slow, not deeper
 		g.pConst = 0.1 + 0.5*r.Float()
 		var cs *Case
 		for try := 0; try < 20 && cs == nil; try++ {
